@@ -11,6 +11,8 @@ import XmppModel.Model.IbbTable
 import XmppModel.Model.IbbCarrier
 import XmppModel.Lemmas.IbbCarrier
 import XmppModel.Model.IbbWriteSide
+import XmppModel.Model.IbbFlow
+import XmppModel.Lemmas.IbbFlow
 import XmppModel.Lemmas.IbbWriteSide
 import XmppModel.Generated.C15
 /-!
@@ -1047,6 +1049,132 @@ round-E fix: `some false`, unguarded use in Close, closeNoNotify, flush.) -/
 theorem C15_write_side_locked : Generated.C15.writeSideLocked = some true := by decide
 
 end WriteSide
+
+/-! ### flow control: any receive-buffer limit, reads interleaved with packets (round E) -/
+section Flow
+
+/-- SAFETY for every history whatsoever: from ANY receiver state (any limit, any expected number,
+anything buffered), for every interleaving of packets (good, bad, repeated, out of sequence,
+oversize), reads of any sizes and limit changes — what the reader got, followed by what is still
+buffered, is what was buffered at the start followed by the decoded payloads of exactly the
+ACKNOWLEDGED packets, in order, each once.  No refused packet contributes a byte, no
+acknowledged byte is lost, repeated or moved. -/
+theorem C15_flow_exactly_once (cd : Codec) : ∀ (ops : List FOp) (s : RState),
+    ∃ d, decodeAll cd (flowRun cd s ops).acked = some d ∧
+      (flowRun cd s ops).delivered ++ (flowRun cd s ops).st.buf = s.buf ++ d := by
+  intro ops
+  induction ops with
+  | nil => intro s; exact ⟨[], rfl, by simp [flowRun]⟩
+  | cons o os ih =>
+    intro s
+    cases o with
+    | pkt p =>
+      by_cases ha : (recv cd s p).2 = .ack
+      · obtain ⟨d1, _, _, _, hd, _, hst⟩ := recv_ack cd s p ha
+        obtain ⟨d2, hd2, hb⟩ := ih (recv cd s p).1
+        refine ⟨d1 ++ d2, ?_, ?_⟩
+        · simp [flowRun, ha, decodeAll, hd, hd2]
+        · simp only [flowRun]
+          rw [hb, hst]; simp [List.append_assoc]
+      · obtain ⟨d2, hd2, hb⟩ := ih (recv cd s p).1
+        refine ⟨d2, ?_, ?_⟩
+        · simp [flowRun, ha, hd2]
+        · simp only [flowRun]; rw [hb, recv_nack cd s p ha]
+    | read n =>
+      obtain ⟨d2, hd2, hb⟩ := ih (Ibb.read s n).1
+      refine ⟨d2, by simpa [flowRun] using hd2, ?_⟩
+      simp only [flowRun, List.append_assoc]
+      rw [hb]
+      simp [Ibb.read, ← List.append_assoc]
+    | setMax n bs =>
+      obtain ⟨d2, hd2, hb⟩ := ih (setMax s n bs)
+      exact ⟨d2, by simpa [flowRun] using hd2, by simpa [flowRun, Ibb.setMax] using hb⟩
+
+/-- the acknowledged packets of any history are numbered consecutively modulo 65536 from the number
+the receiver expected at the start: a repeated, skipped or stale number is never acknowledged -/
+theorem C15_flow_acked_consecutive (cd : Codec) : ∀ (ops : List FOp) (s : RState), s.seq < 65536 →
+    seqsFrom s.seq (flowRun cd s ops).acked = true := by
+  intro ops
+  induction ops with
+  | nil => intro s _; rfl
+  | cons o os ih =>
+    intro s hlt
+    cases o with
+    | pkt p =>
+      by_cases ha : (recv cd s p).2 = .ack
+      · obtain ⟨d1, hk, _, hs, _, _, hst⟩ := recv_ack cd s p ha
+        have := ih (recv cd s p).1 (by rw [hst]; exact Nat.mod_lt _ (by decide))
+        rw [hst] at this
+        simp only [flowRun, ha, if_true, seqsFrom, Bool.and_eq_true, beq_iff_eq]
+        refine ⟨⟨by rw [hs, Nat.mod_eq_of_lt hlt], hk⟩, ?_⟩
+        rw [seqsFrom_mod, hst]; exact this
+      · have := ih (recv cd s p).1 (by rw [recv_nack cd s p ha]; exact hlt)
+        rw [recv_nack cd s p ha] at this
+        simpa [flowRun, ha, recv_nack cd s p ha] using this
+    | read n => simpa [flowRun, Ibb.read] using ih (Ibb.read s n).1 hlt
+    | setMax n bs => simpa [flowRun, Ibb.setMax] using ih (setMax s n bs) hlt
+
+/-- an in-sequence, decodable packet for a live stream is refused — with resource-constraint and
+nothing else — exactly when it does not fit AT THAT MOMENT; otherwise it is acknowledged -/
+theorem C15_flow_refused_iff_no_room (cd : Codec) (s : RState) (p : Packet) (d : Bytes)
+    (hk : p.known = true) (hl : s.live = true) (hs : p.seq = s.seq) (h : cd.dec p.payload = some d) :
+    (fits s d → (recv cd s p).2 = .ack) ∧ (¬ fits s d → recv cd s p = (s, .resourceConstraint)) := by
+  constructor
+  · intro hf; rw [C15_accept cd s p d hk hl hs h hf]
+  · intro hf
+    unfold fits at hf
+    exact C15_refuse_oversize cd s p d hk hl hs h (by omega) (by omega)
+
+/-- back-pressure is not loss: a packet that was refused for lack of room is acknowledged when it
+is sent again after the reader has made room — after ANY sequence of reads that leaves enough
+space, in particular after the buffer was drained, provided the packet is not larger than the limit -/
+theorem C15_flow_retry_after_reads (cd : Codec) (s : RState) (p : Packet) (d : Bytes) (ns : List Nat)
+    (hk : p.known = true) (hl : s.live = true) (hs : p.seq = s.seq) (h : cd.dec p.payload = some d)
+    (hroom : fits (readAll s ns) d) :
+    (recv cd (readAll s ns) p).2 = .ack ∧ (recv cd (readAll s ns) p).1.buf = (readAll s ns).buf ++ d := by
+  obtain ⟨h1, h2, h3, _⟩ := readAll_fields s ns
+  have := C15_accept cd (readAll s ns) p d hk (by rw [h1]; exact hl) (by rw [h2]; exact hs) h hroom
+  rw [this]; exact ⟨rfl, rfl⟩
+
+theorem C15_flow_drained_makes_room (s : RState) (d : Bytes) (hd : s.maxBuf = 0 ∨ d.length ≤ s.maxBuf) :
+    fits (readAll s [s.buf.length]) d := by
+  unfold fits
+  simp only [readAll, Ibb.read, List.drop_length, List.length_nil]
+  omega
+
+/-- THE PIPE with flow control (the `maxBuf = 0`, reader-idle hypotheses of `C15_pipe` removed): the
+receiver starts with ANY limit; the history is ANY interleaving of packets, reads and limit changes in
+which the packets that end up acknowledged are the sender's packets `ps` (an admissible
+packetisation of `written`; refused ones may have been re-sent any number of times, bad packets
+injected anywhere).  Then what the reader got plus what is buffered is a prefix of the bytes
+written — all of them once `Close` has completed — unmodified, in order, exactly once. -/
+theorem C15_flow_pipe (cd : Codec) (written : Bytes) (closed : Bool) (ps : List Packet) (maxBuf : Nat)
+    (ops : List FOp) (h : emits cd written closed ps = true)
+    (hacked : (flowRun cd ⟨true, 0, [], maxBuf⟩ ops).acked = ps) :
+    let r := flowRun cd ⟨true, 0, [], maxBuf⟩ ops
+    (r.delivered ++ r.st.buf).isPrefixOf written = true ∧ (closed = true → r.delivered ++ r.st.buf = written) := by
+  obtain ⟨d, hd, hb⟩ := C15_flow_exactly_once cd ops ⟨true, 0, [], maxBuf⟩
+  unfold emits at h
+  simp only [Bool.and_eq_true] at h
+  rw [hacked] at hd
+  simp only [hd] at h
+  simp only [List.nil_append] at hb
+  constructor
+  · rw [hb]
+    cases closed
+    · simpa using h.2
+    · have := h.2; simp at this; subst this; simp
+  · intro hc; rw [hb]; subst hc; simpa using h.2
+
+/-- non-vacuity, limit 4: `ABC` accepted, `DEF` refused (resource-constraint), the reader drains,
+`DEF` sent again is accepted, a stale repetition of packet 0 is refused; the reader gets `ABCDEF` -/
+example : let r := flowRun std ⟨true, 0, [], 4⟩ [.pkt ⟨true, 0, [81, 85, 74, 68]⟩, .pkt ⟨true, 1, [82, 69, 86, 71]⟩,
+      .read 8, .pkt ⟨true, 1, [82, 69, 86, 71]⟩, .pkt ⟨true, 0, [81, 85, 74, 68]⟩, .read 8]
+    r.replies = [.ack, .resourceConstraint, .ack, .unexpectedRequest] ∧ r.delivered = [65, 66, 67, 68, 69, 70] ∧
+    r.acked = [⟨true, 0, [81, 85, 74, 68]⟩, ⟨true, 1, [82, 69, 86, 71]⟩] ∧
+    emits std [65, 66, 67, 68, 69, 70] true r.acked = true := by decide
+
+end Flow
 
 /-! ### the executable codec instance: spot checks -/
 example : std.dec (std.enc [1, 2, 3, 4, 5]) = some [1, 2, 3, 4, 5] := by decide
